@@ -337,6 +337,9 @@ func (d *Decoder) unmarshal(val reflect.Value, tagType byte) error {
 		if listLen < 0 {
 			return errors.New("list length less than 0")
 		}
+		if listType == TagEnd && listLen > 0 {
+			return ErrEND
+		}
 
 		// If we need parse TAG_List into slice, make a new with right length.
 		// Otherwise, if we need parse into array, we check if len(array) are enough.
